@@ -3,6 +3,34 @@ parser. Shares no code with tlexport. Renders in the canonical form of the line 
 from spec_iana import R  # code -> name
 
 
+def info(name):
+    """Structured denotation used by the independent senders: algo, klen, mode, tag, mac, aead, block."""
+    r = denote(name)
+    if r is None:
+        return None
+    f = dict(x.split("=") for x in r.split(";"))
+    cls = f["CryptoAlgo"].split(":")[1]
+    algo = {"AES": "AES", "AESGCM": "AES", "AESCCM": "AES", "Camellia": "CAMELLIA", "TripleDES": "3DES",
+            "IDEA": "IDEA", "ARC4": "RC4", "ChaCha20Poly1305": "CHACHA20"}[cls]
+    mode = {"CBC": "CBC", "GCM": "GCM", "AESCCM": "CCM", "ChaCha20Poly1305": "POLY1305", "None": None}[f["Mode"].split(":")[1]]
+    return {"algo": algo, "klen": int(f["KeyLength"].split(":")[1]), "mode": mode,
+            "tag": int(f["TagLength"].split(":")[1]), "mac": f["MAC"].split(":")[1],
+            "aead": f["CryptoAlgo"].endswith(":1"), "block": {"AES": 16, "CAMELLIA": 16, "3DES": 8, "IDEA": 8}.get(algo, 0)}
+
+
+def valid_versions(code):
+    """Protocol versions a table suite is valid for (RFC 5246 A.5: SHA-256/384 and AEAD suites are TLS 1.2 only;
+    0x13xx are TLS 1.3 only; IDEA was removed in TLS 1.2)."""
+    d = info(R[code])
+    if code >> 8 == 0x13:
+        return ["tls13"]
+    if d["aead"] or d["mac"] in ("SHA256", "SHA384"):
+        return ["tls12"]
+    if d["algo"] == "IDEA":
+        return ["ssl3", "tls10", "tls11"]
+    return ["ssl3", "tls10", "tls11", "tls12"]
+
+
 def denote(name):
     if not name.startswith("TLS_"):
         return None
